@@ -1,7 +1,10 @@
 // ---- U-table: the table insertion modes (13.2.6.4.9 - 13.2.6.4.15) ----
-pub uninterp spec fn ts_table_scope(p: ExpandedName) -> bool;
-pub uninterp spec fn ts_table_body_context(p: ExpandedName) -> bool;
-pub uninterp spec fn ts_table_row_context(p: ExpandedName) -> bool;
+#[verifier::opaque]
+pub open spec fn ts_table_scope(p: ExpandedName) -> bool { ts::table_scope(p) }
+#[verifier::opaque]
+pub open spec fn ts_table_body_context(p: ExpandedName) -> bool { ts::table_body_context(p) }
+#[verifier::opaque]
+pub open spec fn ts_table_row_context(p: ExpandedName) -> bool { ts::table_row_context(p) }
 #[verifier::external_body]
 pub fn table_scope(p: ExpandedName) -> (r: bool) ensures r == ts_table_scope(p) { unimplemented!() }
 #[verifier::external_body]
@@ -13,9 +16,8 @@ pub open spec fn set_body_ctx() -> spec_fn(ExpandedName) -> bool { |p: ExpandedN
 pub open spec fn set_row_ctx() -> spec_fn(ExpandedName) -> bool { |p: ExpandedName| ts_table_row_context(p) }
 pub open spec fn set_td_th() -> spec_fn(ExpandedName) -> bool { |p: ExpandedName| ts_td_th(p) }
 pub open spec fn set_cursory() -> spec_fn(ExpandedName) -> bool { |p: ExpandedName| ts_cursory_implied_end(p) }
-/// the content of the table tag sets (ASSUMED here; U-tagsets proves each of them equal to the standard's list)
-#[verifier::external_body]
-pub proof fn axiom_table_sets()
+/// the content of the table tag sets (PROVED from the repository's own tag-set text, module `ts`; U-tagsets compares that text with the standard)
+pub proof fn lemma_table_sets()
     ensures
         forall|p: ExpandedName| #[trigger] ts_table_scope(p) == (p == html_name(local_name!("html")) || p == html_name(local_name!("table")) || p == html_name(local_name!("template"))),
         forall|p: ExpandedName| #[trigger] ts_table_body_context(p) == (p == html_name(local_name!("tbody")) || p == html_name(local_name!("tfoot")) || p == html_name(local_name!("thead"))
@@ -24,7 +26,13 @@ pub proof fn axiom_table_sets()
         forall|p: ExpandedName| #[trigger] ts_td_th(p) == (p == html_name(local_name!("td")) || p == html_name(local_name!("th"))),
         !ts_cursory_implied_end(html_name(local_name!("html"))), !ts_cursory_implied_end(html_name(local_name!("caption"))),
         !ts_cursory_implied_end(html_name(local_name!("td"))), !ts_cursory_implied_end(html_name(local_name!("th"))),
-{}
+{
+    reveal(ts_table_scope);
+    reveal(ts_table_body_context);
+    reveal(ts_table_row_context);
+    reveal(ts_td_th);
+    reveal(ts_cursory_implied_end);
+}
 /// local tag sets (rule R39, ASSUMED as for `implied`)
 #[verifier::external_body]
 pub fn table_outer(p: ExpandedName) -> (r: bool) ensures r == ts_table_outer(p) { unimplemented!() }
